@@ -75,6 +75,9 @@ func genC10(c *Ctx) {
 		c.Em.Emit(Rec{Case: fmt.Sprintf("C10 %s %d %s", op.name, a, btok), Impl: canonNum(op.name, a, b, bnil, res, p), NT: nt, Tags: []string{op.name, tag, "direct"}})
 		if viaSrc && a != math.MinInt64 && b != math.MinInt64 && !bnil {
 			src := fmt.Sprintf("(%d) %s (%d)", a, op.sym, b)
+			if !c.Mine() {
+				return
+			}
 			o := c.It.Run(src, "")
 			impl := o.Kind
 			if o.Kind == "val" || o.Kind == "err" {
